@@ -195,10 +195,14 @@ class Machine(object):
             cfg["custom"][1] = rng.choice([0, 5, 300])
         ops = []
         nobj = 1
+        long_msgs = fam == "KangarooTwelve" and rng.random() < 0.5
         for _ in range(rng.randrange(1, 12)):
             o = rng.randrange(nobj)
             r = rng.random()
-            if r < 0.45:
+            if r < 0.45 and long_msgs and rng.random() < 0.6:
+                # tree / chunked hashing: pieces that start inside a chunk and run past one or more chunk boundaries
+                ops.append(["update", o, [rng.randrange(1 << 30), rng.choice([8191, 8192, 8193, 12000, 16383, 16384, 16385, 20000, 24577, 30000])]])
+            elif r < 0.45:
                 ops.append(["update", o, self._dd(rng, cap=300)])
             elif r < 0.75:
                 if F.is_xof(fam):
